@@ -24,7 +24,9 @@ _orm.define(globals(), "C45", ("C45",), "merge",
             "collection reached by merge cascade), clean detached instances read by a second session (load=False) and brand-new identities are "
             "merged while the session's own instance is present, expired, absent or detached; the returned instance must be the session's "
             "single instance for the identity, carry every value loaded on the given object, leave the given object outside the session, be "
-            "unchanged by a second merge, and with load=False emit no SQL and flag no change; the flush oracles of C30 then judge the rows",
+            "unchanged by a second merge, and with load=False emit no SQL and flag no change; merging an identity whose instance is marked for "
+            "deletion (not flushed, autoflush on) must give a new pending instance as if flush() had run first; the flush oracles of C30 then "
+            "judge the rows",
             "seeded search over merge mixed with flush / commit / rollback / expire / expunge / close, autoflush on and off.  Sampled.",
             "only merge cascades along A.bs (and back through B.a) are exercised; merging onto a primary key changed in memory is not generated",
             weights={"merge": 14, "expunge": 2, "close": 2, "expire": 2, "commit": 3, "rollback": 2, "mk": 6, "mk_child": 5, "set": 3, "flush": 3,
